@@ -395,6 +395,24 @@ theorem send_emits_only_sealed (e : Ep) (d : Bytes) :
       exact chunks_flatten _ (by decide) _ _ (by omega)
   · exact ⟨by simp, fun h => absurd h (by assumption)⟩
 
+/-- **send_nonce_unique at the moment of publication**: the run loop publishes `write_epoch`, then
+`write_seq`, then the state `Connected`; sender threads check the state, load the epoch, `fetch_add`
+the sequence number.  For *every* interleaving of these atomic steps, with any number of senders doing
+any number of sends, every record a sender seals carries the published epoch `E` and a sequence number
+≥ `S` (the first one after the Finished record, which used `S - 1`), and no `(epoch, seq)` occurs
+twice. -/
+theorem publication_race_free (E S : Nat) (acts : List PAct) :
+    let s := (PSys.run E S { rest := pubOrder } acts)
+    (∀ p ∈ s.log, p.1 = E ∧ S ≤ p.2) ∧ s.log.Pairwise (· ≠ ·) := by
+  have h := (PInv.init E S).run acts
+  exact ⟨fun p hp => ⟨(h.range p hp).1, (h.range p hp).2.1⟩, h.nodup⟩
+
+/-- Why the order matters: publishing the state first (the superseded order) lets a sender that is
+scheduled between the stores seal a record under `(epoch 1, seq 0)` — the Finished record's nonce. -/
+theorem publication_state_first_races :
+    (1, 0) ∈ (PSys.run 1 1 { rest := pubOrderStateFirst } [.pub, .snd 0, .pub, .snd 0, .snd 0]).log := by
+  decide
+
 /-! ### non-vacuity -/
 
 /-- a (toy) AEAD satisfying the law fields: tag = 16 bytes depending on key, nonce and AAD lengths -/
